@@ -159,13 +159,13 @@ func checkC15(c *Ctx, r *Result, tier string) {
 			}
 		})
 	}
-	r.Floor("R15a-nil", nHookCalls, 5)
+	r.Floor("R15a-nil", nHookCalls, 3)
 
 	// ---- R15b -------------------------------------------------------------------------------
 	nc, nw, ns := checkCondProtocol(c, r, lfs, "R15b", func(class string) bool { return strings.HasPrefix(class, "interpreter.interrogationState") })
 	r.Floor("R15b-conds", nc, 1)
-	r.Floor("R15b-waits", nw, 3)
-	r.Floor("R15b-signals", ns, 2)
+	r.Floor("R15b-waits", nw, 2)
+	r.Floor("R15b-signals", ns, 1)
 
 	// ---- R15c -------------------------------------------------------------------------------
 	g := newGuardChecker(c, lfs)
